@@ -59,6 +59,7 @@ func main() {
 	replayTraces := flag.String("replaytraces", "", "file with traces to replay and compare")
 	replay := flag.String("replay", "", "replay one choice sequence: JSON {Profile, Choices}")
 	only := flag.String("profile", "", "restrict to one profile")
+	freerun := flag.Int("freerun", 0, "pristine build: run the FreeRun profiles free (real goroutines) this many executions each")
 	flag.Parse()
 	runtime.GOMAXPROCS(1)
 	debug.SetGCPercent(400)
@@ -110,6 +111,29 @@ func main() {
 			os.Exit(1)
 		}
 		return
+	case *freerun > 0:
+		// validation pass: the same harness bodies, real goroutines and channels
+		runtime.GOMAXPROCS(4)
+		for _, p := range profiles {
+			if !p.FreeRun {
+				continue
+			}
+			done := 0
+			for rounds := 0; done < *freerun && rounds < *freerun; rounds++ {
+				x := &explore.Explorer{Exec: p.Exec, Profile: p.Name, Budget: map[int]int{}, Shard: 0, Shards: 1, MaxExec: int64(*freerun - done)}
+				x.Run()
+				done += int(x.Executions)
+				res.TracesReplayed += int(x.Executions)
+				for _, f := range x.Found {
+					if len(res.TraceMismatch) < 5 {
+						res.TraceMismatch = append(res.TraceMismatch, fmt.Sprintf("free-running pass of profile %s on the pristine build: [%s] %s", p.Name, f.Viol.Sig, f.Viol.Msg))
+					}
+				}
+				if x.Executions == 0 {
+					break
+				}
+			}
+		}
 	case *replayTraces != "":
 		var ts []explore.Trace
 		b, err := os.ReadFile(*replayTraces)
